@@ -74,6 +74,11 @@ def register(M):
 
     # ---- Rc / Box ---------------------------------------------------------------------
     def rc_new(m, a, k):
+        inner = m.ctx.resolve(a[0])
+        if isinstance(inner, Adt) and inner.ty == 'LTermInner' and m.p.enums['LTermInner'][inner.var] == 'Projection':
+            # LTerm::project overwrites this allocation in place through Rc::as_ptr and every holder of the
+            # Rc must see it: the payload lives in a shared heap cell instead of being held by value
+            return Adt('Rc', 0, (Ref(Cell(inner)),), m.ctx.new_tag())
         return Adt('Rc', 0, (a[0],), m.ctx.new_tag())
 
     def box_new(m, a, k):
@@ -102,6 +107,9 @@ def register(M):
 
     def rc_deref(m, a, k):
         r = innermost_ref(m, a[0])
+        rcv = load(r, m.ctx.resolve)
+        if isinstance(rcv, Adt) and rcv.fields and isinstance(rcv.fields[0], Ref):
+            return rcv.fields[0]              # shared heap cell (see rc_new)
         return Ref(r.cell, r.path + (0,))
     for t in ('Rc', 'Box'):
         reg(t, 'Deref', 'deref', rc_deref)
@@ -323,6 +331,9 @@ def register(M):
         if mm:
             target = mm.group(1)
         src = m.runtime_type(a[0])
+        outer = m.ctx.resolve(a[0])
+        if isinstance(outer, Adt) and outer.ty in ('Rc', 'Box') and target in ('Rc', 'Box'):
+            return a[0]
         if target:
             for tr in ('From<%s>' % src, 'From<&%s>' % src):
                 n = m.p.impls.get((target, tr, 'from'))
@@ -373,8 +384,8 @@ def register(M):
     # ---- Any / TypeId ------------------------------------------------------------------
     def type_id_of(m, a, k):
         # TypeId::of::<T>()
-        g = k.gen[-1] if k.gen else ''
-        return Adt('TypeId', 0, (type_head(g[1:-1]),))
+        ga = m.generic_args(k)
+        return Adt('TypeId', 0, (type_head(ga[-1]) if ga else '?',))
     regp('TypeId::of', type_id_of)
 
     def any_type_id(m, a, k):
@@ -399,8 +410,8 @@ def register(M):
         return None
 
     def any_downcast_ref(m, a, k):
-        g = k.gen[-1] if k.gen else ''
-        full = g[1:-1]
+        ga = m.generic_args(k)
+        full = ga[-1] if ga else ''
         want = type_head(full)
         r = innermost_ref(m, a[0])
         x = val(m, r)
@@ -819,6 +830,7 @@ def register(M):
             if is_sym(n):
                 raise NotEncodable('skip(symbolic)')
             return mk_iter('skip', into_iter_value(m, a[0]), state=n)
+        reg(t, 'Iterator', 'peekable', lambda m, a, k: mk_iter('peekable', into_iter_value(m, a[0]), state=None))
         reg(t, 'Iterator', 'take', it_take)
         reg(t, 'Iterator', 'skip', it_skip)
         reg(t, 'IntoIterator', 'into_iter', lambda m, a, k: into_iter_value(m, a[0]))
@@ -898,7 +910,8 @@ def register(M):
 
     def it_collect(m, a, k):
         items = list(consume(m, a[0]))
-        target = k.gen[-1][1:-1] if k.gen else ''
+        ga = m.generic_args(k)
+        target = ga[-1] if ga else ''
         th = type_head(target) if target else 'Vec'
         if th in ('Vec', ''):
             return Adt('Vec', 0, items)
@@ -940,6 +953,41 @@ def register(M):
         reg(t, 'Iterator', 'fold', it_fold)
         reg(t, 'Iterator', 'collect', it_collect)
         reg(t, 'Iterator', 'eq', it_eq)
+
+    def peek(m, a, k):
+        r, itv = it_of(m, a[0])
+        st = itv.fields[0]
+        if st.kind != 'peekable':
+            raise NotEncodable('peek on a non-peekable iterator')
+        if st.state is None:
+            ns, x = it_next(m, st.src)
+            nv = mk_iter('peekable', ns, state=(x,))
+            if r is None:
+                raise NotEncodable('peek needs a place')
+            store(r, nv, m.ctx.resolve)
+            st = nv.fields[0]
+        x = st.state[0]
+        return some(Ref(Cell(x))) if x is not None else NONE
+    reg('Peekable', None, 'peek', peek)
+    reg('Iter', None, 'peek', peek)
+
+    # ---- OnceCell -------------------------------------------------------------------------------
+    reg('OnceCell', None, 'new', lambda m, a, k: Adt('OnceCell', 0, (NONE,)))
+
+    def once_get_or_init(m, a, k):
+        r = innermost_ref(m, a[0])
+        c = val(m, r)
+        if c.fields[0].var == 0:
+            v = call_closure(m, a[1], [])
+            store(r, Adt('OnceCell', 0, (some(v),)), m.ctx.resolve)
+        return Ref(r.cell, r.path + (0, 0))
+    reg('OnceCell', None, 'get_or_init', once_get_or_init)
+
+    def once_get(m, a, k):
+        r = innermost_ref(m, a[0])
+        c = val(m, r)
+        return some(Ref(r.cell, r.path + (0, 0))) if c.fields[0].var == 1 else NONE
+    reg('OnceCell', None, 'get', once_get)
 
     # ---- closures through Fn* traits ---------------------------------------------------------
     def fn_call(m, a, k):
